@@ -6,7 +6,7 @@ Request interpreter of the line-protocol driver `Drv/Groups.lean` for the `Group
   rep <p> <a> <n>                     generic repeat on residues mod p (double-and-add)
   fpow <p> <a> <n>                    `a ** n` in GF(p)
   perm valid <n> <p> | perm op <p> <q> | perm inv <p> | perm rep <n> <p> <k>
-  qr mem <p> <a> | qr enc <p> <gap> <m> | qr dec <p> <gap> <M> <Z>
+  qr mem <p> <a> | qr enc <p> <gap> <m> | qr dec <p> <gap> <M> <Z> <signed 0|1>
   sg mem <p> <q> <a> | sg enc <p> <g> <m> | sg dec <p> <g> <M>
   ec <sys> <p> <c1> <c2> <op> <args>  sys ∈ ea ep ee wa wp wj; (c1,c2) = (a,d) Edwards / (a,b) Weierstrass
         op ∈ add P Q | dbl P | neg P | norm P | eq P Q | rep P n | on P | lad P bits
@@ -147,7 +147,7 @@ def step (line : String) : String :=
     | _, _, _ => "bad-op"
   | ["fpow", p, a, n] =>
     match parseNat? p, parseNat? a, parseInt? n with
-    | some p, some a, some n => showO ((fpow? a n p).map toString)
+    | some p, some a, some n => (fpow? a n p).elim "ValueError" toString  -- pow(0, -k, p): ValueError
     | _, _, _ => "bad-op"
   | ["perm", "valid", n, p] =>
     match parseNat? n, parseNatList? p with
@@ -176,10 +176,10 @@ def step (line : String) : String :=
       | some (M, Z) => s!"{M} {Z}"
       | none => "ValueError"
     | _, _, _ => "bad-op"
-  | ["qr", "dec", p, gap, M, Z] =>
-    match parseNat? p, parseNat? gap, parseNat? M, parseNat? Z with
-    | some p, some gap, some M, some Z => showO ((qrDecode? p gap M Z).map toString)
-    | _, _, _, _ => "bad-op"
+  | ["qr", "dec", p, gap, M, Z, sg] =>
+    match parseNat? p, parseNat? gap, parseNat? M, parseNat? Z, parseNat? sg with
+    | some p, some gap, some M, some Z, some sg => showO ((qrDecode? p gap M Z (sg != 0)).map toString)
+    | _, _, _, _, _ => "bad-op"
   | ["sg", "mem", p, q, a] =>
     match parseNat? p, parseNat? q, parseNat? a with
     | some p, some q, some a => showB (sgMember p q a)
